@@ -265,21 +265,26 @@ pub uninterp spec fn request_line_parse(s: Seq<char>) -> Option<(Method, String,
     },
 //@endfn
 pub uninterp spec fn header_line_parse(s: Seq<char>) -> Option<Header>;
+/// witness: header h is the result of parsing exactly this text
+pub uninterp spec fn parsed_from(h: Header, s: Seq<char>) -> bool;
 //@impl src/common.rs "FromStr for Header"
 //@fn from_str ret r
 //@assume
 //@spec
-    ensures match r { Ok(h) => header_line_parse(input@) == Some(h), Err(_) => header_line_parse(input@) is None },
+    ensures match r { Ok(h) => header_line_parse(input@) == Some(h) && parsed_from(h, input@), Err(_) => header_line_parse(input@) is None },
 //@endfn
 //@endimpl
 impl AsciiString {
     #[verifier::external_body]
     pub fn is_empty(&self) -> (r: bool) ensures r == (self@.len() == 0) { unimplemented!() }
 }
-pub uninterp spec fn trim_spec(s: Seq<char>) -> Seq<char>;
-pub uninterp spec fn trim_end_spec(s: Seq<char>) -> Seq<char>;
-pub assume_specification[ str::trim ](s: &str) -> (r: &str) ensures r@ == trim_spec(s@);
-pub assume_specification[ str::trim_end ](s: &str) -> (r: &str) ensures r@ == trim_end_spec(s@);
+pub open spec fn ws_char(c: char) -> bool { vstd::std_specs::char::is_white_space(c) }
+// str::trim removes whitespace on both sides, str::trim_end only at the end (std documentation)
+pub assume_specification[ str::trim ](s: &str) -> (r: &str)
+    ensures exists|a: int, b: int| 0 <= a <= b <= s@.len() && r@ == s@.subrange(a, b)
+        && (forall|i: int| 0 <= i < a ==> ws_char(#[trigger] s@[i])) && (forall|i: int| b <= i < s@.len() ==> ws_char(#[trigger] s@[i]));
+pub assume_specification[ str::trim_end ](s: &str) -> (r: &str)
+    ensures r@.len() <= s@.len() && r@ == s@.take(r@.len() as int) && (forall|i: int| r@.len() <= i < s@.len() ==> ws_char(#[trigger] s@[i]));
 
 //@include contracts/header_lookup.inc
 
@@ -380,6 +385,15 @@ pub open spec fn ascii_bytes(s: Seq<u8>) -> bool { forall|i: int| 0 <= i < s.len
                     invariant
                         self.prior_handed_off(), self.peer_known(),
                         self.closing() == old(self).closing(), self.sink_last() == old(self).sink_last(),
+//@after? 1 headers.push
+                    // O-LINE-WS (C16): what is parsed as a header is the line itself, from its first byte (only trailing
+                    // whitespace may have been removed): a line that begins with whitespace (obsolete folding) reaches the
+                    // header parser as such, whose name rule (O-NAME-WS, U-PARSE) refuses it
+                    proof {   // [C16]
+                        let last = headers@.last();
+                        assert(headers@.len() > 0);
+                        assert(exists|inp: Seq<char>| #[trigger] parsed_from(last, inp) && inp.len() <= line@.len() && inp == line@.take(inp.len() as int));
+                    }
 //@closure ~RequestCreationError::CreationIoError~ |e: RequestCreationError| -> (re: ReadError) ensures true
 //@endfn
 //@endimpl
